@@ -410,10 +410,40 @@ def plant_corners(spec, rng):
     if not (set(out["journeys"][ujn]["uj_steps"]) & others):
         for s_ in out["journeys"][ujn]["uj_steps"]:
             out["steps"][s_]["user_time_spent"] = Q(0, "hour")
+    # a usage pattern whose users own two devices of the same model (the same object listed twice)
+    if rng.random() < 0.5 and out["patterns"][pats[0]]["devices"]:
+        out["patterns"][pats[0]]["devices"] = out["patterns"][pats[0]]["devices"] + [out["patterns"][pats[0]]["devices"][0]]
+    # … or two different devices that carry the same name (names are free text)
+    elif len(out["devices"]) >= 1:
+        p0d = out["patterns"][pats[0]]["devices"]
+        if len(p0d) < 2:
+            nm = f"d{len(out['devices'])}"
+            out["devices"][nm] = copy.deepcopy(out["devices"][p0d[0]])
+            out["devices"][nm]["power"] = Q(round(out["devices"][nm]["power"]["m"] * 1.7, 6), out["devices"][nm]["power"]["u"])
+            out["devices"][nm]["carbon_footprint_fabrication"] = Q(round(out["devices"][nm]["carbon_footprint_fabrication"]["m"] * 0.6, 6), out["devices"][nm]["carbon_footprint_fabrication"]["u"])
+            out["patterns"][pats[0]]["devices"] = p0d + [nm]
+            p0d = out["patterns"][pats[0]]["devices"]
+        out["devices"][p0d[1]]["display_name"] = out["devices"][p0d[0]].get("display_name", p0d[0])
     # a journey that goes through one of its steps twice
     uj0 = out["patterns"][pats[0]]["usage_journey"]
     if rng.random() < 0.6 and len(out["journeys"][uj0]["uj_steps"]) < 5:
         out["journeys"][uj0]["uj_steps"] = out["journeys"][uj0]["uj_steps"] + [rng.choice(out["journeys"][uj0]["uj_steps"])]
+    # a job on a server (and storage) that the system does not use yet, and a step without jobs to receive it
+    if rng.random() < 0.5:
+        sv0 = next(iter(out["servers"]))
+        stn, svn, jn_ = f"st{len(out['storages'])}", f"sv{len(out['servers'])}", f"j{len(out['jobs'])}"
+        out["storages"][stn] = copy.deepcopy(out["storages"][out["servers"][sv0]["storage"]])
+        out["storages"][stn]["fixed_nb_of_instances"] = None
+        out["servers"][svn] = dict(copy.deepcopy(out["servers"][sv0]), storage=stn, fixed_nb_of_instances=None)
+        j0 = next((j for j, o in out["jobs"].items() if o["server"] == sv0 and o["data_stored"]["m"] >= 0), None)
+        if j0 is not None:
+            out["jobs"][jn_] = dict(copy.deepcopy(out["jobs"][j0]), server=svn)
+            sn_ = f"s{len(out['steps'])}_free"
+            out["steps"][sn_] = {"user_time_spent": Q(0, "hour"), "jobs": []}
+            uj0_ = out["patterns"][pats[0]]["usage_journey"]
+            out["journeys"][uj0_]["uj_steps"] = out["journeys"][uj0_]["uj_steps"] + [sn_]
+        else:
+            del out["storages"][stn], out["servers"][svn]
     placed = {j for s_ in out["steps"].values() for j in s_["jobs"]}
     if all(j in placed for j in out["jobs"]):
         src = rng.choice(list(out["jobs"]))
